@@ -37,11 +37,24 @@ impl FangProc for SessDumpProc {
         }
         let delay = req.headers.get("x-delay-ms").and_then(|v| v.parse::<u64>().ok()).unwrap_or(0);
         let text = lines.join("\n");
+        // responses that announce no length: a 204, and a chunked event stream. The session goes on after both
+        let shape = req.headers.get("x-shape").map(|v| v.to_string()).unwrap_or_default();
         async move {
             if delay > 0 {
                 tokio::time::sleep(std::time::Duration::from_millis(delay)).await;
             }
-            Response::OK().with_text(text).with_headers(|h| h.x("X-Dump", "1"))
+            match shape.as_str() {
+                "204" => Response::NoContent().with_headers(|h| h.x("X-Dump", "1").x("X-Dump-Sum", format!("{:016x}", crate::rt::fnv64(text.as_bytes())))),
+                "stream" => {
+                    let ds: ohkami::sse::DataStream<String> = ohkami::sse::DataStream::new(move |mut s| async move {
+                        for l in lines {
+                            s.send(l);
+                        }
+                    });
+                    ohkami::IntoResponse::into_response(ds).with_headers(|h| h.x("X-Dump", "1"))
+                }
+                _ => Response::OK().with_text(text).with_headers(|h| h.x("X-Dump", "1")),
+            }
         }
     }
 }
@@ -110,6 +123,8 @@ pub struct SeqOpts {
     pub allow_close: bool,
     pub max_body: usize,
     pub allow_delay: bool,
+    /// some requests ask for a response without Content-Length (`x-shape: 204 | stream`)
+    pub shapes: bool,
 }
 
 /// a sequence of requests for one connection; markers make every request's data unique
@@ -145,6 +160,10 @@ pub fn gen_sequence(conn_tag: usize, o: &SeqOpts) -> Vec<ReqItem> {
         if t::chance(1, 3) {
             // a standard header present here and perhaps absent in the next request
             spec.headers.push((t::pick(&["Authorization", "cookie", "If-None-Match", "ORIGIN"]).to_string(), format!("v-{marker}").into_bytes()));
+        }
+        if o.shapes && t::chance(1, 5) {
+            // answered without a Content-Length (a 204; a chunked stream): the connection stays usable after it
+            spec.headers.push(("x-shape".into(), t::pick(&["204", "stream"]).as_bytes().to_vec()));
         }
         if o.allow_delay && t::chance(1, 6) {
             spec.headers.push(("x-delay-ms".into(), t::pick(&["1", "20", "1500"]).as_bytes().to_vec()));
